@@ -112,6 +112,23 @@ def run(ctx):
                 rg = nap.shuffle_ts_intervals(g)
                 if sorted(rg.keys()) != [2, 7] or ns_arr(rg[7].t)[0] != ts[0] or ns_arr(rg[2].t)[0] != ts[0]:
                     ctx.fail("oracle", "shuffle_ts_intervals(TsGroup): keys / first timestamps", inp)
+                elif len(rg[7]) != len(ts) or len(rg[2]) != len(ts[::2]):
+                    ctx.fail("oracle", "shuffle_ts_intervals(TsGroup): a member lost timestamps", inp, impl=[len(rg[7]), len(rg[2])])
+            # timestamps over a wide dynamic range (hours of recording at ns resolution: one float ulp is of the order of the 1e-9
+            # rounding) on the DEFAULT support, which ends on a member's last timestamp: the re-accumulated intervals may land one
+            # rounding step beyond it - every member still keeps all its timestamps, its first one and its intervals
+            wide = sorted(round(ctx.rng.uniform(0, 1e7), 9) for _ in range(10))
+            gw = nap.TsGroup({7: nap.Ts(np.array(wide)), 2: nap.Ts(np.array(wide[::3])), 11: nap.Ts(np.array(wide[1:]))})
+            winp = dict(level="group-wide-range", members={7: wide, 2: wide[::3], 11: wide[1:]})
+            for rep in range(4):
+                ctx.count("group-wide-range:shuffle")
+                rg = nap.shuffle_ts_intervals(gw)
+                for j in (7, 2, 11):
+                    o, r_ = gw[j].t, rg[j].t
+                    if len(r_) != len(o) or abs(r_[0] - o[0]) > 1e-9 or (len(o) > 1 and np.max(np.abs(np.sort(np.diff(r_)) - np.sort(np.diff(o)))) > 1e-8):
+                        ctx.fail("oracle", "shuffle_ts_intervals(TsGroup, wide time range): member %d count / first timestamp / intervals" % j, winp,
+                                 impl=[len(r_), [float(v) for v in r_]], expected=len(o))
+                        break
         # TsGroup with a member that has no spike and a member with a single spike after everybody else's last one:
         # every generator once with the real NumPy generator (oracle) and once with recorded lattice draws (oracle + the
         # group-level Lean model `regroup`, PynModel/Process/RandomizeGroup.lean, must reproduce the group exactly)
